@@ -2839,7 +2839,7 @@ debug={debug},
                 # discard the branch if it contains None (element that did
                 # not match)
                 ###############################################################
-                if not all(branch):
+                if any(ii is None for ii in branch):
                     continue
                 retval.append(branch)
         else:
@@ -3416,7 +3416,7 @@ debug={debug},
                 # If recurse is False, only search direct children
                 ##############################################################
                 for child in parent.children:
-                    if child.re_match(rf"({childspec})", default=False):
+                    if re.search(childspec, child.text) is not None:
                         retval.add(child)
         else:
             for parent in parents:
@@ -3425,7 +3425,7 @@ debug={debug},
                 #    of the children
                 ##############################################################
                 for child in parent.all_children:
-                    if child.re_match(rf"({childspec})", default=False):
+                    if re.search(childspec, child.text) is not None:
                         retval.add(child)
 
         return sorted(retval)
